@@ -145,6 +145,12 @@ def check_source(desc, proto, max_in, max_out, as_kind):
     except Exception as e:  # noqa: BLE001
         bad("implicit_usage_raises", f"{type(e).__name__}: {e}"[:120], None)
 
+    if as_kind == "graph_init_inputs":
+        # IR < 4 layout: every initializer is also listed among the graph inputs (it stays an initializer)
+        if not main.initializers:
+            return 0, 0, found
+        for v in main.initializers.values():
+            main.inputs.append(v)
     if as_kind == "function":
         for k, v in list(main.initializers.items()):
             if not v.uses() and not v.is_graph_output():
@@ -215,28 +221,33 @@ def check_source(desc, proto, max_in, max_out, as_kind):
 
 def capture_sources():
     """IR graphs with list-of-graphs attributes: every combination of capture sets for two sibling bodies, a body
-    nested inside the first sibling, and a following node with a single-graph attribute."""
+    nested inside the first sibling (which may also use values *defined in* that sibling: a node output "L", a
+    formal input "I", an initializer "W"), a body one level deeper still, and a following node with a
+    single-graph attribute."""
     names = ("x", "y", "a")
     subsets = [c for k in range(0, 3) for c in itertools.combinations(names, k)]
+    deep_sets = [c for k in range(0, 3) for c in itertools.combinations(("x", "a", "L", "I", "W"), k)]
+    deeper_sets = [c for k in range(0, 3) for c in itertools.combinations(("y", "L", "D"), k)]
     for s1 in subsets:
-        for s2 in subsets:
+        for s2 in subsets[:5]:
             for s3 in subsets[:4]:
-                for deep in subsets[:3]:
-                    yield (s1, s2, s3, deep)
+                for deep in deep_sets:
+                    for deeper in deeper_sets:
+                        yield (s1, s2, s3, deep, deeper)
 
 
 def build_capture_graph(spec):
-    s1, s2, s3, deep = spec
+    s1, s2, s3, deep, deeper = spec
     x, y = ir.Value(name="x"), ir.Value(name="y")
     n0 = ir.Node("", "Add", [x, y], name="n0")
     n0.outputs[0].name = "a"
     vals = {"x": x, "y": y, "a": n0.outputs[0]}
 
-    def body(name, caps, inner=None):
+    def body(name, caps, inner=None, extra=None, formal=None, init=None):
         nodes = []
         local = None
         for i, c in enumerate(caps):
-            nd = ir.Node("", "Neg", [vals[c]], name=f"{name}_n{i}")
+            nd = ir.Node("", "Neg", [(extra or {}).get(c) or vals[c]], name=f"{name}_n{i}")
             nd.outputs[0].name = f"{name}_o{i}"
             nodes.append(nd)
             local = nd.outputs[0]
@@ -244,10 +255,24 @@ def build_capture_graph(spec):
             nd = ir.Node("custom", "Wrap", [local] if local is not None else [], [ir.AttrGraph("g", inner)], name=f"{name}_wrap")
             nd.outputs[0].name = f"{name}_w"
             nodes.append(nd)
-        return ir.Graph([], [n.outputs[0] for n in nodes[-1:]], nodes=nodes, name=name)
+        return ir.Graph([formal] if formal is not None else [], [n.outputs[0] for n in nodes[-1:]], nodes=nodes, name=name,
+                        initializers=[init] if init is not None else [])
 
-    inner = body("inner", deep)
-    b1 = body("b1", s1, inner)
+    # values defined inside b1 that deeper bodies may use
+    b1_local_node = ir.Node("", "Relu", [x], name="b1_pre")
+    b1_local_node.outputs[0].name = "b1_L"
+    b1_formal = ir.Value(name="b1_I")
+    b1_init = ir.Value(name="b1_W", const_value=ir.tensor([1.0], name="b1_W"))
+    b1_vals = {"L": b1_local_node.outputs[0], "I": b1_formal, "W": b1_init}
+    # a value defined inside `inner`, used by `innermost`
+    inner_local_node = ir.Node("", "Relu", [y], name="inner_pre")
+    inner_local_node.outputs[0].name = "inner_D"
+    innermost = body("innermost", deeper, extra={"L": b1_vals["L"], "D": inner_local_node.outputs[0]}) if deeper else None
+    inner = body("inner", deep, innermost, extra=b1_vals)
+    if "D" in deeper:
+        inner.insert_before(inner[0], inner_local_node) if len(inner) else inner.append(inner_local_node)
+    b1 = body("b1", s1, inner, formal=b1_formal, init=b1_init)
+    b1.insert_before(b1[0], b1_local_node)
     b2 = body("b2", s2)
     multi = ir.Node("custom", "Multi", [x], [ir.AttrGraphs("bodies", [b1, b2])], name="multi")
     multi.outputs[0].name = "m"
@@ -269,6 +294,15 @@ def check_capture_analysis(spec):
     if a != b:
         return [("implicit_usage_differs_from_brute_force", (a, b))]
     return []
+
+
+def _capture_work(chunk):
+    out = []
+    for spec in chunk:
+        for clause, detail in check_capture_analysis(spec):
+            out.append((spec, clause, detail))
+            break
+    return len(chunk), out[:3]
 
 
 def sources(tier):
@@ -310,7 +344,7 @@ def main(tier):
     r = common.Run("C18", "exploration", tier)
     srcs = sources(tier)
     step = max(1, len(srcs) // 128)
-    tasks = [(srcs[i:i + step], ("graph", "view", "function")) for i in range(0, len(srcs), step)]
+    tasks = [(srcs[i:i + step], ("graph", "view", "function", "graph_init_inputs")) for i in range(0, len(srcs), step)]
     res = common.pmap(_work, common.shuffled(tasks, "c18"), chunksize=1)
     total = sum(a for a, _, _ in res)
     raised = sum(b for _, b, _ in res)
@@ -318,10 +352,12 @@ def main(tier):
     for _, _, f in res:
         for k, v in f.items():
             found.setdefault(k, v)
+    specs = list(capture_sources())
+    cstep = max(1, len(specs) // 64)
     ncap = 0
-    for spec in capture_sources():
-        ncap += 1
-        for clause, detail in check_capture_analysis(spec):
+    for n_done, bad_specs in common.pmap(_capture_work, [specs[i:i + cstep] for i in range(0, len(specs), cstep)]):
+        ncap += n_done
+        for spec, clause, detail in bad_specs:
             found.setdefault(f"{clause}|graphs_attribute", {"source": spec, "cut": None, "clause": clause, "detail": detail})
     total += ncap
     for key, f in sorted(found.items()):
@@ -331,7 +367,7 @@ def main(tier):
     r.coverage.update({
         "evaluations": total, "distinct_nontrivial": total - raised,
         "rule": "a case is (source graph as Graph / GraphView / Function, boundary inputs, boundary outputs, by object or by name); non-trivial = bounded cuts that returned a region (compared with the brute-force closure and evaluated)",
-        "exhaustive": True, "sources": len(srcs), "cuts_that_must_raise": raised,
+        "exhaustive": True, "sources": len(srcs), "cuts_that_must_raise": raised, "capture_analysis_graphs": ncap,
     })
     r.assumptions += ["the reference closure follows producers inside the source graph and values of the source graph captured by nested bodies at any depth; initializers never need to be covered",
                       "evaluation pins the boundary inputs to the values the source computes on two input tuples (mc/evalproto.py)"]
@@ -343,7 +379,7 @@ def replay(obj):
     src = inp["source"]
     forms = tuple(tuple(f) for f in src[0])
     proto = gg.make_model(forms, tuple(src[1]))
-    for kind in ("graph", "view", "function"):
+    for kind in ("graph", "view", "function", "graph_init_inputs"):
         n, rs, found = check_source((forms, src[1]), proto, 2, 2, kind)
         bad = [k for k in found if k.startswith(obj["oracle"])]
         if bad:
